@@ -150,9 +150,10 @@ allocation becomes a forwarding pointer (C10's business, not modelled here). -/
 def grow (b : RawVec α) (newCap : Nat) : RawVec α :=
   { slots := b.slots.take b.len ++ List.replicate (newCap - b.len) none, len := b.len }
 
-/-- `ensure_capacity(needed, cap)`: `if needed > cap { grow(cap, cap * 2) }` — note `0 * 2 = 0`. -/
+/-- `ensure_capacity(needed, cap)`: `if needed > cap { grow(cap, (cap * 2).max(needed)) }` — doubling alone
+would keep a capacity of 0 at 0 (`VecBuilder::cap_only(0)`, what `Iter.list` allocates for a size hint of 0). -/
 def ensureCapacity (b : RawVec α) (needed : Nat) : RawVec α :=
-  if needed > b.cap then b.grow (b.cap * 2) else b
+  if needed > b.cap then b.grow (max (b.cap * 2) needed) else b
 
 /-- Outcome of an operation that writes through raw pointers: `ub` = a write past the allocation. -/
 inductive W (β : Type) | done (b : β) | ub
@@ -214,11 +215,12 @@ def listSet (b : RawVec α) (i : Arg) (v : α) : R (RawVec α) := do
   let k ← determineIndex b.len n
   .ok { b with slots := b.slots.set k (some v) }
 
-/-- `ListRemove`: only `index < 0.0` is rejected up front — a fractional or NaN index is truncated by
-`index as usize` (known finding D26). -/
+/-- `ListRemove`: `index.fract() != 0.0` ("Index must be an integer.": fractions, NaN, ±infinity), then
+`index < 0.0`, then `List::remove(index as usize)`; every failure is an `IndexError`. -/
 def listRemove (b : RawVec α) (i : Arg) : R (Option α × RawVec α) := do
   let n ← i.toNum
-  if n.ltZero then .error .index
+  if n.fractNonZero then .error .index
+  else if n.ltZero then .error .index
   else match b.remove n.toUsize with
     | some r => .ok r
     | none => .error .index
@@ -226,7 +228,8 @@ def listRemove (b : RawVec α) (i : Arg) : R (Option α × RawVec α) := do
 /-- `ListInsert`: same shape as `ListRemove`. -/
 def listInsert (b : RawVec α) (i : Arg) (v : α) : R (RawVec.W (RawVec α)) := do
   let n ← i.toNum
-  if n.ltZero then .error .index
+  if n.fractNonZero then .error .index
+  else if n.ltZero then .error .index
   else match b.insert n.toUsize v with
     | some r => .ok r
     | none => .error .index
@@ -257,16 +260,73 @@ def position [BEq α] (v : α) : List α → Nat → Option Nat
   | x :: xs, k => if x == v then some k else position v xs (k + 1)
 def listIndex [BEq α] (b : RawVec α) (v : α) : Option Nat := position v b.toList 0
 
-/-- insertion into a sorted list, after all elements that are not greater (stable) -/
-def insertSorted (le : α → α → Bool) (x : α) : List α → List α
-  | [] => [x]
-  | y :: ys => if le y x then y :: insertSorted le x ys else x :: y :: ys
-/-- `ListSort` with a total, consistent comparator: a stable sort (`slice::sort_by`).  The model sorts by
-stable insertion; which stable algorithm runs is unobservable for such comparators. -/
-def sortStable (le : α → α → Bool) : List α → List α
-  | [] => []
-  | x :: xs => insertSorted le x (sortStable le xs)
+/-- What the closure that `ListSort` hands to `slice::sort_by` makes of one comparator call. -/
+inductive CmpOut where
+  /-- `Call::Ok(result)` with `result.is_num()` -/
+  | num (n : Num)
+  /-- `Call::Ok(result)` with a result that is not a number -/
+  | notNum
+  /-- `Call::Err(err)`: the comparator raised an error of class `c` -/
+  | raised (c : ErrClass)
+  deriving DecidableEq, Repr, Inhabited
+
+/-- `result.to_num().partial_cmp(&0.0)`, or the failure that is recorded: the comparator's own error,
+`TypeError` ("comparator must return a number." / "... a valid number.") for a non-number and for NaN. -/
+def CmpOut.ordering : CmpOut → R Ordering
+  | .num (.int i) => .ok (if i < 0 then .lt else if i = 0 then .eq else .gt)
+  | .num (.frac neg _) => .ok (if neg then .lt else .gt)
+  | .num (.inf neg) => .ok (if neg then .lt else .gt)
+  | .num .nan => .error .type
+  | .notNum => .error .type
+  | .raised c => .error c
+
+/-- insertion of `x` (which stood in front of all of `ys`) into the sorted `ys`: before the first element
+that is not less than it (stable).  `cmp y x` is the comparator called on `(y, x)`; the first failure stops
+everything (in the Rust text: is recorded, every later comparison answers `Equal` without calling the
+comparator, and the recorded failure is what `ListSort` returns). -/
+def insertSortedM (cmp : α → α → R Ordering) (x : α) : List α → R (List α)
+  | [] => .ok [x]
+  | y :: ys =>
+    match cmp y x with
+    | .error c => .error c
+    | .ok .lt => (match insertSortedM cmp x ys with | .ok r => .ok (y :: r) | .error c => .error c)
+    | .ok _ => .ok (x :: y :: ys)
+
+/-- `ListSort`: a stable sort (`slice::sort_by`) of a copy, or the first failure of the comparator.  The model
+sorts by stable insertion; for a consistent comparator which stable algorithm runs is unobservable, and for
+a comparator whose failures all have one class, so is which failing call comes first. -/
+def sortM (cmp : α → α → R Ordering) : List α → R (List α)
+  | [] => .ok []
+  | x :: xs =>
+    match sortM cmp xs with
+    | .ok s => insertSortedM cmp x s
+    | .error c => .error c
+
+/-- `ListSort::call` -/
+def listSort (b : RawVec α) (cmp : α → α → CmpOut) : R (List α) :=
+  sortM (fun a c => (cmp a c).ordering) b.toList
 end ListNatives
+
+/-! ## The native signature check (`laythe_core/src/signature.rs`) -/
+
+/-- `enum ParameterKind` -/
+inductive PKind | object | bool | number | string | callable | enumerator | cls
+  deriving DecidableEq, Repr, Inhabited
+
+/-- what `ParameterKind::is_valid` looks at: `value.kind()` and, for an object, its `ObjectKind` -/
+inductive Shape | nil | bool | number | string | callable | enumerator | cls | otherObj
+  deriving DecidableEq, Repr, Inhabited
+
+/-- `ParameterKind::is_valid`; a `false` makes the VM raise `RuntimeError` instead of calling the native -/
+def PKind.isValid : PKind → Shape → Bool
+  | .object, _ => true
+  | .bool, .bool => true
+  | .number, .number => true
+  | .string, .string => true
+  | .callable, .callable => true
+  | .enumerator, .enumerator => true
+  | .cls, .cls => true
+  | _, _ => false
 
 /-! ## Tuple natives (tuple.rs): an immutable `[Value]` -/
 
